@@ -199,7 +199,7 @@ func init() {
 			if v == nil {
 				return Const(64, 0)
 			}
-			return Const(64, uint64(len(v.m)))
+			return Const(64, uint64(v.Len()))
 		}
 		panic("Len")
 	})
@@ -273,6 +273,9 @@ func init() {
 		if m != nil {
 			for _, k := range m.sortedKeys() {
 				out = append(out, RV{valid: true, t: mt.Key(), v: copyVal(m.m[k].k), ro: r.ro})
+			}
+			for _, ent := range m.sym {
+				out = append(out, RV{valid: true, t: mt.Key(), v: copyVal(ent.k), ro: r.ro})
 			}
 		}
 		return Slice{o: e.newObj("mapkeys"), v: out, ok: true}
